@@ -72,7 +72,7 @@ PROPS = {
 
 _ASSUME3 = _ASSUME + [
     "EnvOK3: the erc20 module account is on the bank's blocked list; the zero address is not the module address",
-    "HOpOK (closed world): the module account signs nothing and receives coins only through conversions; holders sending Ethereum transactions are not blocked addresses; hooks fire only through real transactions (receipts are not forged); an ERC-20's coin does not circulate before the token is registered; no contract self-destructs; ConvertCoin carries no denomination of hex-address form (excluded point = finding E1, a genuine violation on the real code)",
+    "HOpOK (closed world): the module account signs nothing and receives coins only through conversions; holders sending Ethereum transactions are not blocked addresses; hooks fire only through real transactions (receipts are not forged); an ERC-20's coin does not circulate before the token is registered; no contract self-destructs",
     "external pairs: the token is the honest ERC20MinterBurnerDecimals ('standard ERC-20'); for other tokens the second clause is false (external_backing_needs_standard)",
 ]
 
@@ -127,9 +127,10 @@ TEXT = {
               "forged Transfer log makes the hook mint unbacked coins). The honest-token model is validated on the REAL contract on ethermint's EVM "
               "(surface E): the same operations, holder transactions through the real EvmKeeper.EthereumTx so that the real hook fires on real "
               "receipts; totalSupply(), balanceOf of every tracked holder incl. the module, bank escrow and supply observed after every operation. "
-              "KNOWN FINDING E1 (genuine, reproduced on the real keeper + real EVM): ConvertCoin with a denomination that is a registered contract's "
-              "address written as 40 hex digits escrows that unrelated coin and mints the pair's tokens - excluded from the theorem by HOpOK, "
-              "reported by the monitor, listed in known_findings.json, patch proposed in design_notes/erc20-fix-E1.diff."),
+              "Finding E1 (genuine, found by this check on the real keeper + real EVM, repaired by a fix: commit): ConvertCoin accepted a denomination "
+              "that is a registered contract's address written as 40 hex digits, escrowed that unrelated coin and minted the pair's tokens; the model "
+              "mirrors the repaired code (the guard is a step of convertCoin), the theorems carry no side condition on the denomination, the "
+              "generator keeps producing such attempts (now rejected by model and implementation alike), pre-fix trace in corpus/C03/."),
         note=_NOTE + "Closed-world side conditions HOpOK are hypotheses of the theorems (listed under assumptions). transferFrom/approve/burnFrom are not "
              "separate operations of the model (ledger effect of transfer resp. burn by the owner); pausing is not modelled (the module never pauses; "
              "a paused external token only makes conversions fail)."),
@@ -144,6 +145,5 @@ TEXT = {
               "Stated limit with machine-checked witness external_sender_debit_unchecked: for an external adversarial token the keeper can only check "
               "the escrow side, so 'debits the sender exactly' holds for honest tokens only. Tie: surface M with 20 kinds of scripted deviation at "
               "each call position; whole bank ledger + token ledger diffed on every operation."),
-        note=_NOTE + "Round trips assume the converted denomination is not of hex-address form (see design_notes/erc20.md, finding on ConvertCoin "
-             "with a hex-shaped denomination)."),
+        note=_NOTE),
 }
